@@ -150,6 +150,22 @@ def _always_exits_block(body):
     return False
 
 
+_NEG = {ast.Is: ast.IsNot, ast.IsNot: ast.Is, ast.In: ast.NotIn, ast.NotIn: ast.In, ast.Eq: ast.NotEq, ast.NotEq: ast.Eq}
+
+
+def negate(t):
+    """The test `not t`, spelled without a double negation."""
+    if isinstance(t, ast.UnaryOp) and isinstance(t.op, ast.Not):
+        return t.operand
+    if isinstance(t, ast.Compare) and len(t.ops) == 1 and type(t.ops[0]) in _NEG:
+        return ast.copy_location(ast.Compare(left=t.left, ops=[_NEG[type(t.ops[0])]()], comparators=t.comparators), t)
+    return ast.copy_location(ast.UnaryOp(op=ast.Not(), operand=t), t)
+
+
+def _nstmts(body):
+    return sum(1 for st in body for n in ast.walk(st) if isinstance(n, ast.stmt))
+
+
 def _flatten_else_after_exit(tree):
     """N3: `if c: ...exit` `else: REST` becomes `if c: ...exit` followed by REST (the "no-else-return" style)."""
 
@@ -157,14 +173,24 @@ def _flatten_else_after_exit(tree):
         out = []
         for st in body:
             out.append(st)
-            if isinstance(st, ast.If):
-                cur = st
-                # peel: if the body exits, its else-branch is just what follows
-                while isinstance(cur, ast.If) and cur.orelse and _always_exits_block(cur.body):
+            cur = st
+            # peel: if one branch always exits, the other branch is just what follows
+            while isinstance(cur, ast.If) and cur.orelse:
+                be, oe = _always_exits_block(cur.body), _always_exits_block(cur.orelse)
+                if be and oe and _nstmts(cur.orelse) < _nstmts(cur.body):
+                    be = False  # both branches exit: the shorter one is the guard, whichever way the test was written
+                if be:
                     tail = cur.orelse
                     cur.orelse = []
-                    out.extend(tail)
-                    cur = tail[0] if len(tail) == 1 and isinstance(tail[0], ast.If) else None
+                elif oe:
+                    tail = cur.body
+                    cur.test = negate(cur.test)
+                    cur.body = cur.orelse
+                    cur.orelse = []
+                else:
+                    break
+                out.extend(tail)
+                cur = tail[0] if len(tail) == 1 and isinstance(tail[0], ast.If) else None
         return out
 
     def visit(node):
@@ -187,6 +213,153 @@ def _flatten_else_after_exit(tree):
     return tree
 
 
+def _merge_nested_ifs(tree):
+    """N4: `if a:` whose whole body is `if b: X` (neither with an else) becomes `if a and b: X`."""
+    changed = True
+    while changed:
+        changed = False
+        for n in ast.walk(tree):
+            if isinstance(n, ast.If) and not n.orelse and len(n.body) == 1 and isinstance(n.body[0], ast.If) and not n.body[0].orelse:
+                inner = n.body[0]
+                a = n.test.values if isinstance(n.test, ast.BoolOp) and isinstance(n.test.op, ast.And) else [n.test]
+                b = inner.test.values if isinstance(inner.test, ast.BoolOp) and isinstance(inner.test.op, ast.And) else [inner.test]
+                n.test = ast.copy_location(ast.BoolOp(op=ast.And(), values=list(a) + list(b)), n.test)
+                n.body = inner.body
+                changed = True
+    return tree
+
+
+_MULTI_EVAL = (ast.Lambda, ast.ListComp, ast.SetComp, ast.DictComp, ast.GeneratorExp)
+
+
+def _header_exprs(st):
+    """The expressions of statement st that are evaluated exactly once when control reaches st."""
+    if isinstance(st, (ast.Return, ast.Expr, ast.Assign, ast.AugAssign, ast.AnnAssign, ast.Raise, ast.Assert, ast.Delete)):
+        return [st]
+    if isinstance(st, ast.If):
+        return [st.test]
+    if isinstance(st, (ast.For, ast.AsyncFor)):
+        return [st.iter]
+    if isinstance(st, (ast.With, ast.AsyncWith)):
+        return [st.items[0].context_expr] if st.items else []
+    return []
+
+
+def _single_loads(exprs, name):
+    """Load occurrences of `name` in exprs that are evaluated exactly once (not under a lambda / comprehension, not in the
+    right operand of a short-circuit operator or a branch of a conditional expression)."""
+    found, blocked = [], []
+
+    def visit(n, multi):
+        if isinstance(n, ast.Name) and n.id == name:
+            (blocked if multi or not isinstance(n.ctx, ast.Load) else found).append(n)
+            return
+        if isinstance(n, ast.BoolOp):
+            visit(n.values[0], multi)
+            for v in n.values[1:]:
+                visit(v, True)
+            return
+        if isinstance(n, ast.IfExp):
+            visit(n.test, multi)
+            visit(n.body, True)
+            visit(n.orelse, True)
+            return
+        m = multi or isinstance(n, _MULTI_EVAL)
+        for ch in ast.iter_child_nodes(n):
+            visit(ch, m)
+
+    for e in exprs:
+        visit(e, False)
+    return found, blocked
+
+
+def _inline_single_use(tree):
+    """N5: `t = E` immediately followed by a statement that evaluates the local `t` exactly once, `t` occurring nowhere else
+    in the function, becomes that statement with E in place of `t` (the inverse of an "extract variable" refactoring)."""
+
+    def blocks_of(fn):
+        out = []
+
+        def visit(node):
+            for f in ("body", "orelse", "finalbody"):
+                seq = getattr(node, f, None)
+                if isinstance(seq, list) and seq and isinstance(seq[0], ast.stmt):
+                    out.append((node, f))
+                    for st in seq:
+                        if not isinstance(st, (ast.FunctionDef, ast.AsyncFunctionDef, ast.ClassDef)):
+                            visit(st)
+            for h in getattr(node, "handlers", None) or []:
+                visit(h)
+            for c in getattr(node, "cases", None) or []:
+                visit(c)
+
+        visit(fn)
+        return out
+
+    def candidate(seq, i, params):
+        st = seq[i]
+        if not (isinstance(st, ast.Assign) and len(st.targets) == 1 and isinstance(st.targets[0], ast.Name)) or i + 1 >= len(seq):
+            return None
+        t = st.targets[0].id
+        if t in params or any(isinstance(x, (ast.Yield, ast.YieldFrom, ast.Await, ast.NamedExpr)) for x in ast.walk(st.value)):
+            return None
+        hdr = _header_exprs(seq[i + 1])
+        found, blocked = _single_loads(hdr, t)
+        if len(found) == 1 and not blocked:
+            return t, found[0]
+        return None
+
+    for fn in [n for n in ast.walk(tree) if isinstance(n, (ast.FunctionDef, ast.AsyncFunctionDef))]:
+        a = fn.args
+        params = {x.arg for x in a.posonlyargs + a.args + a.kwonlyargs} | ({a.vararg.arg} if a.vararg else set()) | ({a.kwarg.arg} if a.kwarg else set())
+        for _ in range(50):
+            cnt = {}
+            for n in ast.walk(fn):
+                if isinstance(n, ast.Name):
+                    cnt[n.id] = cnt.get(n.id, 0) + 1
+                elif isinstance(n, (ast.Global, ast.Nonlocal)):
+                    for x in n.names:
+                        cnt[x] = cnt.get(x, 0) + 1000
+            blocks = blocks_of(fn)
+            npairs = {}
+            for node, f in blocks:
+                seq = getattr(node, f)
+                for i in range(len(seq)):
+                    c = candidate(seq, i, params)
+                    if c:
+                        npairs[c[0]] = npairs.get(c[0], 0) + 1
+            done = False
+            for node, f in blocks:
+                seq = getattr(node, f)
+                for i in range(len(seq)):
+                    c = candidate(seq, i, params)
+                    if c and cnt.get(c[0], 0) == 2 * npairs[c[0]]:
+                        t, load = c
+                        value = seq[i].value
+
+                        class Sub(ast.NodeTransformer):
+                            def visit_Name(self, n):
+                                return value if n is load else n
+
+                        nxt = seq[i + 1]
+                        if isinstance(nxt, ast.If):
+                            nxt.test = Sub().visit(nxt.test)
+                        elif isinstance(nxt, (ast.For, ast.AsyncFor)):
+                            nxt.iter = Sub().visit(nxt.iter)
+                        elif isinstance(nxt, (ast.With, ast.AsyncWith)):
+                            nxt.items[0].context_expr = Sub().visit(nxt.items[0].context_expr)
+                        else:
+                            seq[i + 1] = Sub().visit(nxt)
+                        del seq[i]
+                        done = True
+                        break
+                if done:
+                    break
+            if not done:
+                break
+    return tree
+
+
 def normalise(tree, sigs=None):
     """Canonical form applied to every analysed module before any rule sees it, so that rules do not depend on a
     maintainer's choice between equivalent spellings:
@@ -196,10 +369,17 @@ def normalise(tree, sigs=None):
     N2  a keyword argument naming the callee's next positional parameter becomes positional, when every definition in
         the repository with the callee's simple name agrees on that position (`f(a, y=b)` is `f(a, b)` for every rule).
     N3  `if c: ...exit` `else: REST` is `if c: ...exit` followed by REST (an else after return / raise / continue / break is
-        hoisted, also along elif chains), so the early-exit style and the if/else style are one shape.
+        hoisted, also along elif chains), so the early-exit style and the if/else style are one shape; likewise
+        `if c: REST` `else: ...exit` is `if not c: ...exit` followed by REST; when both branches exit, the shorter one is
+        the guard.
+    N4  `if a:` whose whole body is `if b: X` (no else on either) is `if a and b: X`.
+    N5  `t = E` immediately followed by a statement that evaluates the local `t` exactly once, `t` occurring nowhere else in
+        the function, is that statement with E for `t` (generalises N1: an "extract variable" step is invisible).
     """
     _positionalise(tree, SIGS if sigs is None else sigs)
     _flatten_else_after_exit(tree)
+    _merge_nested_ifs(tree)
+    _inline_single_use(tree)
 
     def occurrences(fn):
         cnt = {}
